@@ -1,7 +1,7 @@
 (* C01: Tree.from_split_bitmasks (Model/C01Model.v from_splits): greedy insertion of splits. *)
 From Coq Require Import ZArith List Bool Lia ZifyBool Permutation.
 From DV Require Import Model.PyPrims Model.Tree Gen.BitFns Model.C01Model
-  Proofs.C01Bits Proofs.C01Enc Proofs.C01Topo.
+  Proofs.C01Bits Proofs.C01Enc Proofs.C01Topo Proofs.C01Bip.
 Import ListNotations.
 Open Scope Z_scope.
 
@@ -599,7 +599,7 @@ Section Star.
     - destruct ns; [simpl in Hlen; lia | discriminate].
     - apply Forall_forall. intros c Hc. apply in_map_iff in Hc. destruct Hc as (p & <- & Hp).
       apply mwf_leaf. exists (snd p). split; [apply snd_nonneg; exact Hp | reflexivity].
-    - apply (proj2 (FOP_map (fun a b => mdisjoint (m_mask a) (m_mask b)) _ ns)).
+    - apply (proj1 (FOP_map (fun a b => mdisjoint (m_mask a) (m_mask b)) (fun p : Z * Z => M (2 ^ snd p) (Some (fst p)) []) ns)).
       destruct Hns as [ND FA]. rewrite Forall_forall in FA.
       assert (G : forall l, NoDup (map fst l) -> (forall p, In p l -> 0 <= fst p /\ snd p = acc (fst p)) ->
                  ForallOrdPairs (fun a b : Z * Z => mdisjoint (m_mask (M (2 ^ snd a) (Some (fst a)) [])) (m_mask (M (2 ^ snd b) (Some (fst b)) []))) l).
@@ -637,3 +637,276 @@ Section Star.
       cbn. left. reflexivity.
   Qed.
 End Star.
+
+(* ------------------------------------------------------------------------------------------ *)
+(* from_split_bitmasks: order irrelevance and reconstruction                                   *)
+
+Definition sub_b (root s : Z) : bool := Z.eqb (Z.land s root) s.
+
+Lemma splits_to_add_nonzero rooted all l : Forall (fun s => s <> 0) (splits_to_add rooted all l).
+Proof.
+  unfold splits_to_add. apply Forall_forall. intros y Hy. apply in_flat_map in Hy. destruct Hy as (s & _ & Hy).
+  cbv zeta in Hy. set (m := Z.land s all) in *.
+  destruct (negb (m =? all) && negb (Z.land (m - 1) m =? 0)) eqn:E; [| destruct Hy].
+  apply andb_true_iff in E. destruct E as [E1 E2]. apply negb_true_iff in E1, E2. apply Z.eqb_neq in E1, E2.
+  assert (M0 : m <> 0) by (intro Z0; apply E2; rewrite Z0; reflexivity).
+  destruct (is_true rooted); [destruct Hy as [<- | []]; exact M0|].
+  destruct (negb (Z.land 1 m =? 0)); destruct Hy as [<- | []]; [| exact M0].
+  intro Z0. apply E1. apply msubset_antisym.
+  - unfold m. intros i Hi H. unfold mem in *. rewrite Z.land_spec in H. apply andb_true_iff in H. tauto.
+  - intros i Hi H. unfold mem in *. apply (f_equal (fun z => Z.testbit z i)) in Z0.
+    rewrite Z.land_spec, Z.lnot_spec, Z.bits_0, H in Z0 by lia. rewrite andb_true_r in Z0.
+    apply negb_false_iff in Z0. exact Z0.
+Qed.
+
+Lemma fold_add_filter : forall l t, mwf t -> Forall (fun s => s <> 0) l ->
+  fold_left add_split l t = fold_left add_split (filter (sub_b (m_mask t)) l) t.
+Proof.
+  induction l as [|s r IH]; intros t W NZ; [reflexivity|]. inversion NZ as [|? ? Hs NZr]; subst.
+  cbn [fold_left filter]. destruct (sub_b (m_mask t) s) eqn:E.
+  - cbn [fold_left]. destruct (add_split_ok t s W Hs) as [(W1 & M1 & _) _].
+    rewrite (IH (add_split t s) W1 NZr), M1. reflexivity.
+  - assert (A : add_split t s = t). { unfold add_split. unfold sub_b in E. rewrite E. reflexivity. }
+    rewrite A. apply IH; assumption.
+Qed.
+
+Lemma filter_perm {A} (p : A -> bool) l l' : Permutation l l' -> Permutation (filter p l) (filter p l').
+Proof.
+  induction 1 as [| x l l' _ IH | x y l | l l' l'' _ IH1 _ IH2]; cbn [filter].
+  - reflexivity.
+  - destruct (p x); [constructor|]; exact IH.
+  - destruct (p x), (p y); try reflexivity. apply perm_swap.
+  - etransitivity; eassumption.
+Qed.
+
+Lemma laminar_single s k : 0 <= k -> laminar s (2 ^ k).
+Proof.
+  intro Hk. destruct (Z.testbit s k) eqn:E.
+  - right. right. intros i Hi H. unfold mem in *. rewrite Z.pow2_bits_eqb in H by lia. apply Z.eqb_eq in H. subst i. exact E.
+  - left. intros i Hi H1 H2. unfold mem in *. rewrite Z.pow2_bits_eqb in H2 by lia. apply Z.eqb_eq in H2. subst i. congruence.
+Qed.
+
+Lemma leaves_ok_of_perm t L0 :
+  Permutation (leaf_taxa t) L0 -> forallb has_taxon L0 = true -> NoDup L0 -> leaves_ok t = true.
+Proof.
+  intros P H1 H2. unfold leaves_ok. apply andb_true_iff. split.
+  - rewrite forallb_forall in *. intros x Hx. apply H1. apply (Permutation_in _ P Hx).
+  - apply distinct_b_complete. apply (Permutation_NoDup (Permutation_sym P)). exact H2.
+Qed.
+
+Section FromSplits.
+  Variable acc : Z -> Z.
+  Hypothesis Hnn : forall x, 0 <= acc x.
+  Hypothesis Hinj : forall x y, acc x = acc y -> x = y.
+  Variable ns : list (Z * Z).
+  Hypothesis Hns : ns_ok acc ns.
+  Hypothesis Hlen : (2 <= length ns)%nat.
+
+  Let t0 := star_m ns.
+  Let R := m_mask (star_m ns).
+
+  Lemma star_lam s y : sub_b R s = true -> In y (mclades t0) -> laminar s y.
+  Proof.
+    intros Hs Hy. apply (star_m_clades ns) in Hy. destruct Hy as [(p & Hp & ->) | ->].
+    - apply laminar_single. apply (snd_nonneg acc Hnn ns Hns p Hp).
+    - right. left. apply msubset_land. unfold sub_b in Hs. apply Z.eqb_eq in Hs. exact Hs.
+  Qed.
+
+  (* facts about the tree built from any list of non-zero splits *)
+  Lemma built_facts L : Forall (fun s => s <> 0) L ->
+    let t := fold_left add_split L t0 in
+    mwf t /\ mleaves_ok acc t /\ leaves_ok (to_tree t) = true /\
+    Permutation (leaf_taxa (to_tree t)) (map (fun p => Some (fst p)) ns).
+  Proof.
+    intros NZ t. destruct (fold_add_facts L t0 (star_m_wf acc Hnn Hinj ns Hns Hlen) NZ) as (W & _ & _ & _ & P).
+    fold t in W, P.
+    assert (LO : mleaves_ok acc t).
+    { unfold mleaves_ok. apply Forall_forall. intros q Hq. apply (Permutation_in _ P) in Hq.
+      pose proof (star_m_leaves_ok acc ns Hns Hlen) as S0. unfold mleaves_ok in S0. rewrite Forall_forall in S0.
+      apply S0. exact Hq. }
+    assert (PT : Permutation (leaf_taxa (to_tree t)) (map (fun p => Some (fst p)) ns)).
+    { rewrite leaf_taxa_to_tree. transitivity (map snd (mleaves t0)); [apply Permutation_map; exact P|].
+      unfold t0. rewrite (star_m_leaves acc ns Hns Hlen), map_map. reflexivity. }
+    split; [exact W|]. split; [exact LO|]. split; [| exact PT].
+    apply (leaves_ok_of_perm _ _ PT).
+    - apply forallb_forall. intros x Hx. apply in_map_iff in Hx. destruct Hx as (p & <- & _). reflexivity.
+    - destruct Hns as [ND _]. rewrite <- (map_map fst Some). apply FinFun.Injective_map_NoDup; [| exact ND].
+      intros a b E. inversion E. reflexivity.
+  Qed.
+
+  Lemma built_clades L : Forall (fun s => s <> 0) L ->
+    clades acc (to_tree (fold_left add_split L t0)) = mclades (fold_left add_split L t0).
+  Proof. intro NZ. destruct (built_facts L NZ) as (W & LO & _). apply (clades_to_tree acc Hnn); assumption. Qed.
+
+  (* from_splits_order_irrelevant: any two orders of the same splits give the same topology, provided
+     the splits that lie within the namespace's bits are pairwise laminar (e.g. come from one tree) *)
+  Lemma from_splits_order_irrelevant_l count rooted l l' :
+    Permutation l l' ->
+    ForallOrdPairs laminar (filter (sub_b R) (splits_to_add rooted (all_taxa_bitmask count) l)) ->
+    canon acc (to_tree (from_splits ns count rooted l)) = canon acc (to_tree (from_splits ns count rooted l')).
+  Proof.
+    intros P FP. rewrite !(from_splits_star acc ns Hns Hlen). fold t0.
+    set (L := splits_to_add rooted (all_taxa_bitmask count) l) in *.
+    set (L' := splits_to_add rooted (all_taxa_bitmask count) l').
+    assert (PL : Permutation L L') by (apply flat_map_perm; exact P).
+    assert (NZ : Forall (fun s => s <> 0) L) by apply splits_to_add_nonzero.
+    assert (NZ' : Forall (fun s => s <> 0) L') by apply splits_to_add_nonzero.
+    destruct (built_facts L NZ) as (_ & _ & LK & _). destruct (built_facts L' NZ') as (_ & _ & LK' & _).
+    apply (clades_iff_canon acc Hnn Hinj _ _ LK LK').
+    rewrite (built_clades L NZ), (built_clades L' NZ').
+    pose proof (star_m_wf acc Hnn Hinj ns Hns Hlen) as W0. fold t0 in W0.
+    rewrite (fold_add_filter L t0 W0 NZ), (fold_add_filter L' t0 W0 NZ'). fold R.
+    intro y. apply fold_add_order_irrelevant.
+    - exact W0.
+    - apply filter_perm. exact PL.
+    - apply Forall_forall. intros s Hs. apply filter_In in Hs. rewrite Forall_forall in NZ. apply NZ. tauto.
+    - intros s z Hs Hz. apply filter_In in Hs. apply star_lam; tauto.
+    - exact FP.
+  Qed.
+End FromSplits.
+
+Lemma FOP_of_all {A} (R : A -> A -> Prop) l : (forall a b, In a l -> In b l -> R a b) -> ForallOrdPairs R l.
+Proof.
+  induction l as [|x r IH]; intro H; constructor.
+  - apply Forall_forall. intros b Hb. apply H; [left; reflexivity | right; exact Hb].
+  - apply IH. intros a b Ha Hb. apply H; right; assumption.
+Qed.
+
+Lemma leaf_clade acc t x : (forall z, 0 <= acc z) -> In (Some x) (leaf_taxa t) -> In (2 ^ acc x) (clades acc t).
+Proof.
+  intro Hnn. induction t as [i y l e ks IH] using tree_ind'. intro H.
+  destruct ks as [|k0 kr].
+  - cbn [leaf_taxa] in H. destruct H as [-> | []]. rewrite clades_node. cbn [flat_map app]. left.
+    rewrite (cmask_leaf acc). cbn [leaf_mask]. apply taxon_bitmask_pow2. apply Hnn.
+  - rewrite leaf_taxa_node in H. apply in_flat_map in H. destruct H as (c & Hc & H).
+    rewrite Forall_forall in IH. apply (child_clades_incl acc i y l e (k0 :: kr) c _ Hc). apply (IH c Hc H).
+Qed.
+
+Section Rebuild.
+  Variable acc : Z -> Z.
+  Hypothesis Hnn : forall x, 0 <= acc x.
+  Hypothesis Hinj : forall x y, acc x = acc y -> x = y.
+  Variable ns : list (Z * Z).
+  Hypothesis Hns : ns_ok acc ns.
+  Hypothesis Hlen : (2 <= length ns)%nat.
+
+  Lemma root_bits k : mem (m_mask (star_m ns)) k -> exists p, In p ns /\ k = snd p.
+  Proof.
+    intro H. unfold star_m in H. cbn [m_mask] in H.
+    change (fold_right Z.lor 0 (map (fun p : Z * Z => 2 ^ snd p) ns)) with
+      (fold_right Z.lor 0 (map (fun p : Z * Z => m_mask (M (2 ^ snd p) (Some (fst p)) [])) ns)) in H.
+    rewrite <- (map_map (fun p => M (2 ^ snd p) (Some (fst p)) []) m_mask) in H.
+    apply (or_masks_mem (map (fun p => M (2 ^ snd p) (Some (fst p)) []) ns) k) in H.
+    destruct H as (c & Hc & H). apply in_map_iff in Hc. destruct Hc as (p & <- & Hp). cbn [m_mask] in H.
+    exists p. split; [exact Hp|]. unfold mem in H.
+    rewrite Z.pow2_bits_eqb in H by (apply (snd_nonneg acc Hnn ns Hns p Hp)). apply Z.eqb_eq in H. symmetry. exact H.
+  Qed.
+
+  (* from_splits_rebuilds, rooted: the namespace's members are exactly the tree's leaf taxa (vacated
+     accession indices allowed: count only has to exceed every index); the splits of the rooted
+     encoding, in ANY order, rebuild the tree's topology *)
+  Lemma from_splits_rebuilds_rooted_l count rooted t l :
+    is_true rooted = true -> leaves_ok t = true ->
+    Permutation (leaf_taxa t) (map (fun p => Some (fst p)) ns) ->
+    (forall p, In p ns -> snd p < count) ->
+    Permutation l (enc_splits (encode acc rooted t)) ->
+    canon acc (to_tree (from_splits ns count rooted l)) = canon acc t.
+  Proof.
+    intros HR LK PT Hcount PL.
+    rewrite (from_splits_star acc ns Hns Hlen).
+    set (all := all_taxa_bitmask count). set (L := splits_to_add rooted all l).
+    set (t0 := star_m ns). set (R := m_mask t0).
+    assert (NZ : Forall (fun s => s <> 0) L) by apply splits_to_add_nonzero.
+    destruct (built_facts acc Hnn Hinj ns Hns Hlen L NZ) as (_ & _ & LK' & _).
+    apply (clades_iff_canon acc Hnn Hinj _ _ LK' LK).
+    rewrite (built_clades acc Hnn Hinj ns Hns Hlen L NZ). fold t0.
+    pose proof (star_m_wf acc Hnn Hinj ns Hns Hlen) as W0. fold t0 in W0.
+    rewrite (fold_add_filter L t0 W0 NZ). fold R.
+    destruct (leaves_ok_parts t LK) as [HT ND].
+    (* the tree's mask is the root mask of the star tree *)
+    assert (RM : cmask acc t = R).
+    { unfold cmask. rewrite (mask_of_perm acc _ _ PT). unfold R, t0, star_m. cbn [m_mask].
+      destruct Hns as [_ FA]. rewrite Forall_forall in FA. clear - FA Hnn.
+      induction ns as [|p r IH]; [reflexivity|]. cbn [map mask_of fold_right leaf_mask].
+      fold (mask_of acc (map (fun p => Some (fst p)) r)). rewrite IH by (intros q Hq; apply FA; right; exact Hq).
+      rewrite taxon_bitmask_pow2 by apply Hnn. destruct (FA p (or_introl eq_refl)) as [_ ->]. reflexivity. }
+    assert (RA : msubset R all).
+    { intros i Hi H. apply root_bits in H. destruct H as (p & Hp & ->). unfold mem, all, all_taxa_bitmask.
+      rewrite Z.shiftl_1_l. specialize (Hcount p Hp). pose proof (snd_nonneg acc Hnn ns Hns p Hp).
+      replace (2 ^ count - 1) with (Z.ones count) by (rewrite Z.ones_equiv; lia).
+      apply Z.ones_spec_low. lia. }
+    assert (CL : forall y, In y l <-> In y (clades acc t)).
+    { intro y. rewrite <- (rooted_splits_are_clades acc rooted t HR y). split; intro H.
+      - apply (Permutation_in _ PL H).
+      - apply (Permutation_in _ (Permutation_sym PL) H). }
+    assert (CS : forall y, In y (clades acc t) -> Z.land y all = y).
+    { intros y Hy. apply msubset_land. apply (msubset_trans _ R); [| exact RA]. rewrite <- RM. apply clades_sub. exact Hy. }
+    assert (CNZ : forall y, In y (clades acc t) -> y <> 0).
+    { intros y Hy. apply (clades_canon acc t y) in Hy.
+      apply (clades_nonzero acc Hnn (canon acc t) y); [apply good_canon; assumption | exact Hy]. }
+    assert (InL : forall y, In y L <-> (In y (clades acc t) /\ y <> all /\ Z.land (y - 1) y <> 0)).
+    { intro y. unfold L, splits_to_add. rewrite in_flat_map. rewrite HR. split.
+      - intros (s & Hs & Hy). apply CL in Hs. cbv zeta in Hy. rewrite (CS s Hs) in Hy.
+        destruct (negb (s =? all) && negb (Z.land (s - 1) s =? 0)) eqn:E; [| destruct Hy].
+        destruct Hy as [<- | []]. apply andb_true_iff in E. destruct E as [E1 E2].
+        apply negb_true_iff in E1, E2. apply Z.eqb_neq in E1, E2. tauto.
+      - intros (Hy & N1 & N2). exists y. split; [apply CL; exact Hy|]. cbv zeta. rewrite (CS y Hy).
+        apply Z.eqb_neq in N1, N2. rewrite N1, N2. left. reflexivity. }
+    assert (SubR : forall y, In y (clades acc t) -> sub_b R y = true).
+    { intros y Hy. unfold sub_b. apply Z.eqb_eq. apply msubset_land. rewrite <- RM. apply clades_sub. exact Hy. }
+    intro y. rewrite fold_add_clades.
+    - split.
+      + intros [H | [H _]].
+        * apply (star_m_clades ns) in H. destruct H as [(p & Hp & ->) | ->].
+          -- destruct Hns as [_ FA]. rewrite Forall_forall in FA. destruct (FA p Hp) as [_ ->].
+             apply leaf_clade; [exact Hnn|]. apply (Permutation_in _ (Permutation_sym PT)).
+             apply in_map_iff. exists p. split; [reflexivity | exact Hp].
+          -- fold t0. fold R. rewrite <- RM. apply cmask_in_clades.
+        * apply filter_In in H. destruct H as [H _]. apply InL in H. tauto.
+      + intro Hy. destruct (Z.eq_dec y all) as [Ea | Na].
+        { left. apply (star_m_clades ns). right. fold t0. fold R.
+          apply msubset_antisym; [rewrite <- RM; apply clades_sub; exact Hy | rewrite Ea; exact RA]. }
+        destruct (Z.eq_dec (Z.land (y - 1) y) 0) as [E1 | N1].
+        { left. apply clear_lowest_eq0, at_most_one_cases in E1. destruct E1 as [E0 | (k & Hk & ->)].
+          - exfalso. apply (CNZ y Hy E0).
+          - apply (star_m_clades ns). left.
+            assert (H : mem R k).
+            { rewrite <- RM. apply (clades_sub acc t _ Hy k Hk). unfold mem. apply Z.pow2_bits_true. exact Hk. }
+            apply root_bits in H. destruct H as (p & Hp & ->). exists p. split; [exact Hp | reflexivity]. }
+        right. split; [apply filter_In; split; [apply InL; tauto | apply SubR; exact Hy]|].
+        fold R. rewrite <- RM. apply clades_sub. exact Hy.
+    - exact W0.
+    - apply Forall_forall. intros s Hs. apply filter_In in Hs. rewrite Forall_forall in NZ. apply NZ. tauto.
+    - intros s z Hs Hz. apply filter_In in Hs. apply (star_lam acc Hnn ns Hns); tauto.
+    - apply FOP_of_all. intros a b Ha Hb. apply filter_In in Ha, Hb. destruct Ha as [Ha _], Hb as [Hb _].
+      apply InL in Ha, Hb. apply (clades_laminar acc t Hnn Hinj ND); tauto.
+  Qed.
+End Rebuild.
+
+(* ------------------------------------------------------------------------------------------ *)
+(* Tree.is_compatible_with_bipartition on a rooted tree                                        *)
+
+Lemma tree_compatible_rooted_spec_l acc rooted t s :
+  (forall x, 0 <= acc x) -> (forall x y, acc x = acc y -> x = y) ->
+  is_true rooted = true -> leaves_ok t = true ->
+  let enc := enc_splits (encode acc rooted t) in
+  let S := cmask acc t in
+  Z.land S s = s ->
+  (tree_is_compatible_with enc S s = true <->
+   forall b, In b enc -> (mdisjoint b s \/ msubset b s \/ msubset s b)).
+Proof.
+  intros Hnn Hinj HR LK enc S Hs.
+  pose proof (leaves_ok_nonzero acc Hnn Hinj t LK) as SN. fold S in SN.
+  destruct (leaves_ok_parts t LK) as [_ ND].
+  assert (EC : forall b, In b enc <-> In b (clades acc t)) by (intro b; apply rooted_splits_are_clades; exact HR).
+  assert (BS : forall b, In b enc -> Z.land S b = b).
+  { intros b Hb. rewrite Z.land_comm. apply msubset_land. apply clades_sub. apply EC. exact Hb. }
+  assert (PC : forall b, In b enc ->
+               (py_is_compatible_bitmasks b s S = true <-> (mdisjoint b s \/ msubset b s \/ msubset s b))).
+  { intros b Hb. rewrite (is_compatible_rooted b s S SN). unfold clade_compatible. rewrite (BS b Hb), Hs. reflexivity. }
+  rewrite tree_compatible_unfold. split.
+  - intros [Hin | Hall] b Hb.
+    + apply (clades_laminar acc t Hnn Hinj ND); apply EC; assumption.
+    + apply (PC b Hb). apply Hall. exact Hb.
+  - intro H. right. intros b Hb. apply (PC b Hb). apply H. exact Hb.
+Qed.
